@@ -126,6 +126,40 @@ def r4_budget(ctx, F):
     some, none = b.branch(head, 'Some'), b.branch(head, 'None')
     if not some or not none:
         raise AnchorMissing('actions(): Some/None edges of the crash loop')
+    # where an offer is *produced*: the Crash construction itself, or - when the ids are first gathered in a
+    # collection (`for id in self.crashable_actors(state)`) - the point that yields an id into it
+    from taint import _single_source, collection_yields
+    forwarded = None
+    coll = _single_source(b, head.args[0]['place']['l'], ('IntoIterator::into_iter', 'slice::iter', 'Vec::iter', 'Deref::deref')) \
+        if head.args and head.args[0].get('k') in ('copy', 'move') else None
+    cy = collection_yields(b, coll) if coll is not None else None
+    if cy is not None:
+        ys = cy[1]
+        pheads = [c for c in b.calls_to('Iterator::next') if b.in_cycle(c.bb) and all(b.dominates(c.bb, y.bb) for y in ys)]
+        if pheads:
+            # the consuming loop turns every gathered id into an offer, unconditionally
+            cbody = b.reach([e[1] for e in some], cut_blocks=[head.bb])
+            fw = True
+            for (i, st) in crash_sites:
+                # (origins() looks through the collection: the offered id is one of the gathered ones)
+                org = origins(b, st['rv']['ops'][0])
+                gathered = set()
+                for y in ys:
+                    gathered |= origins(b, y.args[1])
+                if not org or org != gathered or 'other' in org:
+                    fw = False
+                if head.bb in b.reach([e[1] for e in some], cut_blocks=[i]):
+                    fw = False
+            if any(x in cbody for x in b.returns):
+                fw = False
+            forwarded = fw
+            head = max(pheads, key=lambda c: len([1 for x in pheads if b.dominates(x.bb, c.bb)]))
+            some, none = b.branch(head, 'Some'), b.branch(head, 'None')
+            crash_sites = [(y.bb, {'rv': {'ops': [y.args[1]]}}) for y in ys]
+    if forwarded is not None:
+        ctx.check(forwarded, rule, 'gathered-ids-all-offered', b0,
+                  good='every id gathered for crashing becomes a Crash action',
+                  bad='actions(): the ids gathered for crashing are not all turned into Crash actions')
 
     def is_budget(v):
         return noref(v).fields()[-1:] == ('.max_crashes',)
@@ -219,7 +253,7 @@ def r4_budget(ctx, F):
     okf = True
     for (i, st) in crash_sites:
         idc = origins(b, st['rv']['ops'][0])
-        if not idc or not all(not isinstance(c, (str, tuple)) and c.is_('From::from') for c in idc):
+        if not idc or not all(not isinstance(c, (str, tuple)) and c.is_('From::from', 'Into::into') for c in idc):
             okf = False
             continue
         for c in idc:
@@ -233,6 +267,10 @@ def r4_budget(ctx, F):
             continue
         on = noref(sw.on)
         org = None
+        up_label = False          # the edge taken when the flag says "not crashed"
+        while on.kind == 'un' and on.key[0] == 'Not':      # `(!crashed).then_some(i)`
+            on = noref(on.key[1])
+            up_label = not up_label
         if on.kind == 'call' and on.key == head.bb and on.fields()[-1:] == ('.1',):
             org = True
         elif on.kind == 'local':
@@ -240,7 +278,7 @@ def r4_budget(ctx, F):
             org = bool(og) and all(isinstance(o, tuple) and o[0] == 'proj' and o[1] is head and o[2][-1] == '1'
                                    for o in og)
         if org:
-            fe = sw.edges_for(False)
+            fe = sw.edges_for(up_label)
             if fe and all(b.edges_dominate(fe, i, frm=[e[1] for e in some]) for (i, st) in crash_sites):
                 okn = True
     ctx.check(okf and okn, rule, 'only-up-actors-crash', b0,
